@@ -80,11 +80,11 @@ def handle (j : J) : J :=
     let root := fldListOfJson (j.arrD "fields")
     let treeOk := Spec.TreeOk.treeOkFields (j.natD "len") root
     match execute root with
-    | none => .obj [("exec", .null)]
+    | none => .obj [("exec", .null), ("typed", .bool (Spec.TreeOk.typedFields root))]
     | some (data, errs) =>
       let sites := Spec.NullSites.sitesFields root
       .obj [("exec", .obj [("data", data), ("errors", .arr (errs.map errToJson))]),
-            ("tree_ok", .bool treeOk),
+            ("tree_ok", .bool treeOk), ("typed", .bool (Spec.TreeOk.typedFields root)),
             ("keys_distinct", .bool (decide (Spec.NullSites.keysOf root).Nodup && Spec.NullSites.keysDistinctFields root)),
             ("bijection", .bool (errs.map Err.path? == sites.map some && sites.all fun p => (dataAt data p).map J.isNull == some true))]
   | "exec_root" =>
